@@ -241,7 +241,12 @@ pub fn gen_case(prop: &str, thorough: bool, weak: bool, rng: &mut Rng) -> Case {
             p.w_load_drop = 20;
         }
         "C18" => {
-            p.w_arm_panic = 8;
+            if rng.below(2) == 0 {
+                // destructor panics on the helping path need the fallback
+                p.kinds = vec![CKind::AF, CKind::OF, CKind::AD];
+                cfg.p_fast_slot_refused = choose(rng, &[0, 140, 220]);
+            }
+            p.w_arm_panic = 10;
             p.w_rcu_panic = 60;
             p.w_rcu = 18;
             p.w_handle = 8;
@@ -277,6 +282,7 @@ pub fn gen_case(prop: &str, thorough: bool, weak: bool, rng: &mut Rng) -> Case {
             }
         }
         "C11" if rng.below(3) == 0 => return gen_c11_readonly(rng, cfg, thorough),
+        "C07" | "C01" | "C03" if rng.below(4) == 0 => return gen_aba_storm(rng, cfg, thorough),
         "C16" => return crate::extras::gen_c16(rng, cfg, thorough),
         "C17" => return crate::extras::gen_c17(rng, cfg, thorough),
         _ => {}
@@ -410,6 +416,49 @@ fn gen_c11_readonly(rng: &mut Rng, cfg: RunCfg, thorough: bool) -> Case {
         }
     }
     threads[0].ops = main_ops;
+    Case {
+        cfg,
+        prog: Program {
+            conts,
+            threads,
+            final_order: rng.below(4) as u8,
+        },
+    }
+}
+
+/// One container, one or two readers that only load, two writers that only store fresh values,
+/// aggressive address reuse: the window between a reader's unprotected first read and its
+/// confirmation sees the value die and its address come back (ABA within one container).
+fn gen_aba_storm(rng: &mut Rng, mut cfg: RunCfg, thorough: bool) -> Case {
+    let kind = choose(rng, &[CKind::AD, CKind::OD, CKind::AD]);
+    let conts = vec![ContSpec { kind, init: Init::New }];
+    let mut threads = vec![ThreadProg::default()];
+    let n_readers = 1 + rng.below(2) as usize;
+    for _ in 0..n_readers {
+        let mut ops = Vec::new();
+        for i in 0..(2 + rng.below(if thorough { 4 } else { 3 })) {
+            ops.push(match rng.below(4) {
+                0 => Op::Load { c: 0, g: (i % 4) as u8 },
+                1 => Op::LoadFull { c: 0, h: (i % 3) as u8 },
+                _ => Op::LoadDrop { c: 0 },
+            });
+        }
+        threads.push(ThreadProg { ops, top: true });
+    }
+    for _ in 0..2 {
+        let mut ops = Vec::new();
+        for _ in 0..(2 + rng.below(if thorough { 5 } else { 3 })) {
+            ops.push(if rng.below(4) == 0 {
+                Op::Swap { c: 0, v: V::New, h: 0 }
+            } else {
+                Op::Store { c: 0, v: V::New }
+            });
+        }
+        threads.push(ThreadProg { ops, top: true });
+    }
+    cfg.p_reuse = 240;
+    cfg.p_fast_slot_refused = 0;
+    cfg.p_switch_after_mark = choose(rng, &[64, 160, 220]);
     Case {
         cfg,
         prog: Program {
